@@ -787,8 +787,8 @@ impl SimProp for C16 {
     }
     fn n_cases(&self, tier: Tier) -> u64 {
         match tier {
-            Tier::Quick => 40_000,
-            Tier::Thorough => 1_000_000,
+            Tier::Quick => 120_000,
+            Tier::Thorough => 3_000_000,
         }
     }
     fn generate(&self, g: &mut Gen, _tier: Tier) -> SimCase {
@@ -839,8 +839,8 @@ impl SimProp for C17 {
     }
     fn n_cases(&self, tier: Tier) -> u64 {
         match tier {
-            Tier::Quick => 40_000,
-            Tier::Thorough => 1_000_000,
+            Tier::Quick => 120_000,
+            Tier::Thorough => 3_000_000,
         }
     }
     fn generate(&self, g: &mut Gen, _tier: Tier) -> SimCase {
@@ -885,8 +885,8 @@ impl SimProp for C18 {
     }
     fn n_cases(&self, tier: Tier) -> u64 {
         match tier {
-            Tier::Quick => 40_000,
-            Tier::Thorough => 1_000_000,
+            Tier::Quick => 120_000,
+            Tier::Thorough => 3_000_000,
         }
     }
     fn generate(&self, g: &mut Gen, _tier: Tier) -> SimCase {
